@@ -334,9 +334,9 @@ func (c12pDriver) Gen(r *Rand, tier string) []json.RawMessage {
 		res = append(res, c12Raw("random", sb.String()))
 	}
 	// (d) structured queries rendered through the grammar
-	ns := 1500
+	ns := 2400
 	if thorough {
-		ns = 30000
+		ns = 48000
 	}
 	var rendered []string
 	for i := 0; i < ns; i++ {
@@ -758,9 +758,9 @@ func c12GenQuery(r *Rand, in *c12eInput) []c12Item {
 }
 
 func (c12eDriver) Gen(r *Rand, tier string) []json.RawMessage {
-	n, nq := 250, 12
+	n, nq := 300, 12
 	if tier == "thorough" {
-		n, nq = 5000, 12
+		n, nq = 6000, 12
 	}
 	var res []json.RawMessage
 	for i := 0; i < n; i++ {
@@ -1107,6 +1107,14 @@ func (c12eDriver) Run(raw json.RawMessage) Case {
 			if e1 != "" || e2 != "" {
 				o.Error = e1 + e2
 				tagset["query-error"] = true
+			}
+			if fmt.Sprint(o.Result) != fmt.Sprint(o.Second) {
+				a, b := append([]int(nil), o.Result...), append([]int(nil), o.Second...)
+				sort.Ints(a)
+				sort.Ints(b)
+				if fmt.Sprint(a) != fmt.Sprint(b) {
+					tagset["eval-twice-differs"] = true
+				}
 			}
 			if len(o.Result) > 0 {
 				nonEmpty++
